@@ -43,7 +43,7 @@ def run(tier, seed, verdict):
     from nixio.exceptions import InvalidUnit
 
     rnd = random.Random(seed)
-    counts = {"scale": 0, "atom": 0, "xunit": 0, "xpow": 0, "compound": 0, "sanitize": 0}
+    counts = {"scale": 0, "atom": 0, "xunit": 0, "xpow": 0, "xcomp": 0, "compound": 0, "sanitize": 0}
     samples = []
     nontrivial = set()
 
@@ -98,7 +98,7 @@ def run(tier, seed, verdict):
                                   {"s": s, "expected": want, "observed": got}, vec)
             if units.sanitizer(s) != s and "mu" not in s:
                 verdict.violation("sanitizer/changes_clean_unit", {"s": s, "observed": units.sanitizer(s)}, vec)
-        elif kind in ("xunit", "xpow"):
+        elif kind in ("xunit", "xpow", "xcomp"):
             a, b = r["a"], r["b"]
             nontrivial.add((a, b))
             if units.scalable(a, b) or units.scalable([a], [b]):
@@ -143,7 +143,7 @@ def run(tier, seed, verdict):
         verdict.violation("tlc/law_violated", {"tlc": res.violation, "trace": res.error_trace[:40]})
     elif res.rc != 0:
         raise core.MachineryError("TLC failed: rc=%s\n%s" % (res.rc, "\n".join(res.log_tail[-20:])))
-    for k in ("scale", "atom", "xunit", "xpow", "compound"):
+    for k in ("scale", "atom", "xunit", "xpow", "xcomp", "compound"):
         if counts[k] == 0:
             raise core.MachineryError("vacuity: no %s vectors were exported" % k)
 
@@ -167,7 +167,7 @@ def run(tier, seed, verdict):
 
     coverage = {
         "states": res.distinct, "transitions": res.exports,
-        "traces_validated_against_impl": sum(counts[k] for k in ("scale", "atom", "xunit", "xpow", "compound")),
+        "traces_validated_against_impl": sum(counts[k] for k in ("scale", "atom", "xunit", "xpow", "xcomp", "compound")),
         "samples": samples, "exhaustive": True,
         "evaluations": sum(counts.values()), "distinct_nontrivial": len(nontrivial),
         "rule": "TLC enumerates every (unit, power) x prefix pair (scale), every prefix-unit-power atom, "
